@@ -35,6 +35,8 @@ def probe_file(b):
              b.expr_stmt(b.call(b.member(b.call(v('IERC20'), [v('t')]), 'approve'), [v('t'), n(2)])),
              # arithmetic nested twice in the RIGHT operand (in some layouts every operation begins on a line of its own)
              b.expr_stmt(b.bin('Assign', v('alpha'), b.bin('Add', v('q'), b.bin('Multiply', v('beta'), b.paren(b.bin('Subtract', v('q'), n(7))))))),
+             # three constructs that BEGIN at the same byte, behind a first token of one byte: ((q + beta) + alpha) + q
+             b.expr_stmt(b.bin('Add', b.bin('Add', b.bin('Add', v('q'), v('beta')), v('alpha')), v('q'))),
              # a revert string written as three adjacent parts (they stand on different lines in some layouts)
              b.expr_stmt(b.call(v('require'), [b.bin('Less', v('q'), n(9)), b.strings(['first part, ', 'second part ', 'and a third part of the message'])]))]
     parts = [b.state_var(u(), 'alpha'), b.state_var(u(), 'beta'), b.state_var(b.ty('Uint', 8), 'gamma', [b.vattr('visibility', 'private')]),
